@@ -321,11 +321,14 @@ def run(ctx):
     ctx.inst("C02-no-stack-cycle", "graph", {"nodes": len(g), "builtin_targets": len(reg_targets)})
     if cyc:
         short = [c.rsplit("::", 2)[-2] + "::" + c.rsplit("::", 1)[-1] if c.count("::") > 1 else c for c in cyc]
-        key = "->".join(c.rsplit("::", 1)[-1] for c in cyc)
+        # (keyed by what the cycle goes through that matters: the builtin dispatcher and the builtin that re-enters — helper
+        # functions extracted from apply_procedure on the way do not make it another cycle)
+        essential = [c for i, c in enumerate(cyc) if i in (0, len(cyc) - 1) or c == bpa.name or c in reg_targets]
+        key = "->".join(c.rsplit("::", 1)[-1] for c in essential)
         ctx.report("C02-no-stack-cycle", key, "apply_procedure re-enters itself on the Rust stack without passing through "
                    "eval_expression: %s (a procedure applied through this path in tail position consumes stack)" % " -> ".join(short), where_of(ap))
     if len(reg_targets) < 40:
-        ctx.report("C02-no-stack-cycle", "floor", "only %d builtin targets resolved (expected >= 40)" % len(reg_targets))
+        ctx.undecided("C02-no-stack-cycle", "floor", "only %d builtin targets resolved (expected >= 40)" % len(reg_targets))
 
     # ------------------------------------------------------------------ C02-derived-tail (Engine C)
     try:
